@@ -204,13 +204,19 @@ def _run_case(case: dict, judges: list[str], opts: dict):
                                 "optimized": sexp_o if not verdict.startswith("EXPORT") else None, "original": sexp})
         # the passes themselves (coq/OptPass.v, proved to produce only validated tables): the table each modelled
         # pass produces alone must be IDENTICAL to the table the extracted model of the pass computes
-        pm = out.setdefault("passmodel", {"same": 0, "diff": 0, "changed": 0})
+        pm = out.setdefault("passmodel", {"same": 0, "diff": 0, "changed": 0, "outside_theorem_domain": 0})
         from pest import Parser as _Parser
         from pest.grammar.optimizer import DEFAULT_OPTIMIZER_PASSES as _DP, Optimizer as _Opt
         bis = " ".join(str(syms.rule(n)) for n in syms.exported if isinstance(pI.rules.get(n), BuiltInRule))
-        for pname, key in (("unroll", "unroll"), ("inline built-in", "inline-builtin")):
+        seqs = [(("unroll",), "unroll"), (("inline built-in",), "inline-builtin")]
+        # and, alternating per case, sequences of the two (the subject of C02_modelled_passes_compose)
+        seqs.append(((("unroll", "inline built-in", "unroll"), "unroll+inline-builtin+unroll"),
+                     (("inline built-in", "unroll", "inline built-in"), "inline-builtin+unroll+inline-builtin"))
+                    [len(case["grammar"]) % 2])
+        for pnames, key in seqs:
+            pname = " + ".join(pnames)
             try:
-                step = [st for st in _DP if st.name == pname]
+                step = [st for nm in pnames for st in _DP if st.name == nm]
                 p1 = _Parser.from_grammar(case["grammar"], optimizer=_Opt(step))
                 roots = list(syms.exported) + (["SKIP"] if "SKIP" in p1.rules and "SKIP" not in syms.exported else [])
                 sexp_1, _ = export_parser(p1, roots=roots, syms=syms)
@@ -222,6 +228,7 @@ def _run_case(case: dict, judges: list[str], opts: dict):
             if ans.startswith("SAME"):
                 pm["same"] += 1
                 pm["changed"] += int(sexp_1 != sexp)
+                pm["outside_theorem_domain"] += int("outside-domain" in ans)
             else:
                 pm["diff"] += 1
                 out["viol"].append({"judge": "tie", "what": f"the table produced by the optimizer pass {pname!r} alone differs "
@@ -513,7 +520,7 @@ def run_cases(cases: list[dict], judges: list[str], opts: dict | None = None, np
             for kk in oc:
                 oc[kk] += r["optcheck"][kk]
         if "passmodel" in r:
-            pmm = agg.setdefault("passmodel", {"same": 0, "diff": 0, "changed": 0})
+            pmm = agg.setdefault("passmodel", {"same": 0, "diff": 0, "changed": 0, "outside_theorem_domain": 0})
             for kk in pmm:
                 pmm[kk] += r["passmodel"][kk]
         agg["viol"].extend(r["viol"])
